@@ -1,7 +1,7 @@
 """R-STATE, R-INITCOVER: built/loaded state parity."""
 from core import *
 from rulebase import rule
-from rules_dispatch import kinds, QUERY_OPS
+from rules_dispatch import kinds, QUERY_OPS, ORDERED_KINDS
 import rules_serial
 
 
@@ -812,3 +812,302 @@ def r_scanlen(db, rep):
                     rep.viol("%s#scan-length-%s" % (g.qn, p[-1]), g.nloc(n),
                              "%s summarises %s over [0, %s) but builds the sequence over %s elements (e.g. %s): symbols outside the scanned "
                              "prefix are missing from the alphabet / maximum that queries rely on" % (g.qn, fmt_path(g, p), canon(B), canon(L), wit), g.qn)
+
+
+# ---------------------------------------------------------------------------------------------------
+def scalar_write_kinds(db, f):
+    """(rec, field) -> list of ("const", value, line) / ("data", None, line) for the scalar members f stores into."""
+    out = {}
+
+    def scalar(t):
+        return (t or {}).get("kind") in ("int", "uint", "bool", "float")
+
+    for ini in f.raw.get("inits", []):
+        if ini.get("field") and isinstance(ini.get("init"), dict):
+            fd = db.field(ini.get("rec"), ini["field"]) if ini.get("rec") else None
+            if fd is None or fd[2][fd[1]["t"]]["kind"] not in ("int", "uint", "bool", "float"):
+                continue
+            cv = const_value(ini["init"])
+            out.setdefault((ini.get("rec"), ini["field"]), []).append(("const", cv, f.line) if cv is not None else ("data", None, f.line))
+    for lv, w in written_lvalues(f):
+        s = strip(lv)
+        if s["k"] != "MemberExpr" or s.get("mk") != "field" or not scalar(f.type(s)):
+            continue
+        cv = const_value(w["rhs"]) if (w.get("op") == "=" and w.get("rhs") is not None) else None
+        out.setdefault(field_key(f, s), []).append(("const", cv, w.get("l")) if cv is not None else ("data", None, w.get("l")))
+    for n in f.live_nodes():
+        if n["k"] in ("CallExpr", "CXXMemberCallExpr"):
+            cand = [n["args"][i] for i in n.get("pw", []) if i < len(n.get("args", []))]
+            if callee_name(n) == "read" and n.get("args"):
+                cand.append(n["args"][0])
+            for a in cand:
+                a = strip(a)
+                while a["k"] in EXPLICIT_CASTS | TRANSPARENT:
+                    a = strip(a["sub"])
+                if a["k"] == "UnaryOperator" and a["op"] == "&":
+                    a = strip(a["sub"])
+                if a["k"] == "MemberExpr" and a.get("mk") == "field" and scalar(f.type(a)):
+                    out.setdefault(field_key(f, a), []).append(("data", None, n.get("l")))
+    return out
+
+
+def _derived(db, rep, kind_ok=None, rec_ok=None):
+    _w, _r = {}, {}
+
+    def Wk(fid):
+        if fid not in _w:
+            _w[fid] = scalar_write_kinds(db, db.funcs[fid])
+        return _w[fid]
+
+    def R(fid):
+        if fid not in _r:
+            _r[fid] = read_fields(db, db.funcs[fid])
+        return _r[fid]
+
+    seen = set()
+    for k in kinds(db):
+        if kind_ok is not None and not kind_ok(k):
+            continue
+        ops = []
+        for op in QUERY_OPS + ["getSize", "save"]:
+            ops += db.methods_of(k, op)
+        roots = creation_roots(db, k)
+        built = [r for s, r in roots if s == "built"]
+        loaded = [r for s, r in roots if s == "loaded"]
+        if not built or not loaded:
+            continue
+        bclo, binst = db.rta(built)
+        bw = {}
+        for fid in bclo:
+            for key, ws in Wk(fid).items():
+                bw.setdefault(key, []).extend((fid, w) for w in ws)
+        for root in loaded:
+            rep.visit(root)
+            lclo, linst = db.rta([root])
+            linst = set(linst) | {k}
+            lw = {}
+            for fid in lclo:
+                for key, ws in Wk(fid).items():
+                    lw.setdefault(key, []).extend((fid, w) for w in ws)
+            uclo, _ = db.rta(ops, inst0=linst)
+            # writes by the operations themselves: scratch / lazily computed members are not creation state
+            opw = set()
+            for fid in uclo:
+                g = db.funcs[fid]
+                if not (g.is_ctor or g.is_dtor):
+                    opw |= set(Wk(fid))
+            nobl = 0
+            for fid in sorted(uclo):
+                g = db.funcs[fid]
+                if g.is_ctor or g.is_dtor:
+                    continue
+                for (rec, fld), (line, _d) in R(fid).items():
+                    if rec is None or rec not in db.records:
+                        continue
+                    if rec not in linst and not any(s in linst for s in db.all_subclasses(rec)):
+                        continue
+                    key = (rec, fld)
+                    if key not in bw or key not in lw or key in opw:
+                        continue
+                    if rec_ok is not None and not rec_ok(rec, g):
+                        continue
+                    # plain records without a loader of their own (Codeword, ...) are read back in bulk by their owner:
+                    # their members are not stored into one by one
+                    if not any(db.methods_of(r2, "load") for r2 in [rec] + list(db.all_subclasses(rec)) + list(db.all_bases(rec))):
+                        continue
+                    nobl += 1
+                    rep.ob()
+                    b_data = [(x, w) for x, w in bw[key] if w[0] == "data" and x not in lclo]
+                    l_data = [(x, w) for x, w in lw[key] if w[0] == "data"]
+                    if not b_data or l_data:
+                        continue
+                    vk = "%s:%s::%s" % (k, rec, fld)
+                    if vk in seen:
+                        continue
+                    seen.add(vk)
+                    bx, bwr = b_data[0]
+                    consts = sorted({str(w[1]) for _x, w in lw[key]})
+                    rep.viol(vk, "%s:%s" % (g.file, line),
+                             "%s::%s is read by %s (%s) on a loaded %s; the building path computes it from the data (%s, %s:%s) but everything "
+                             "reachable from %s only ever stores the constant %s into it: the loaded object's %s does not describe the loaded data" % (
+                                 rec, fld, g.qn, " -> ".join(db.chain(uclo, fid)[-4:]), k, db.funcs[bx].qn, db.funcs[bx].file, bwr[2],
+                                 root.qn, "/".join(consts), fld), g.qn, {"creation_root": root.qn})
+            if nobl:
+                rep.inst(root.loc, "loaded %s via %s: %d scalar members with writes on both creation paths and a read on an operation path" % (
+                    k, root.qn, nobl))
+
+
+_DERIVED_WHAT = ("built / loaded state parity for derived scalars: a scalar member that the building constructor computes from the "
+                 "data and that a query, getSize or save reads is not left at a compile-time constant on every path that loads the "
+                 "object (it is either read back from the image or recomputed)")
+
+
+@rule("R-DERIVED", 12, _DERIVED_WHAT)
+def r_derived(db, rep):
+    _derived(db, rep)
+
+
+@rule("R-DERIVED-ORDER", 6, _DERIVED_WHAT + " -- the order-preserving kinds")
+def r_derived_order(db, rep):
+    _derived(db, rep, kind_ok=lambda k: k in ORDERED_KINDS)
+
+
+def _rec_file(db, rec):
+    r = db.records.get(rec) or {}
+    return r.get("file") or ""
+
+
+@rule("R-DERIVED-CODEC", 3, _DERIVED_WHAT + " -- the integer codecs (DAC sequences, packed arrays)")
+def r_derived_codec(db, rep):
+    _derived(db, rep, rec_ok=lambda rec, g: rec.startswith("DAC_") or rec in ("LogSequence", "VByte") or "Array" == rec.split("::")[-1])
+
+
+@rule("R-DERIVED-CDS", 5, _DERIVED_WHAT + " -- the bundled bit sequences and wavelet trees")
+def r_derived_cds(db, rep):
+    _derived(db, rep, rec_ok=lambda rec, g: g.file.startswith("libcds/"))
+
+
+@rule("R-DERIVED-RP", 3, _DERIVED_WHAT + " -- the Re-Pair grammar")
+def r_derived_rp(db, rep):
+    _derived(db, rep, rec_ok=lambda rec, g: rec.split("::")[-1] == "RePair")
+
+
+# ---------------------------------------------------------------------------------------------------
+def _cumulative_passes(g):
+    """[(array path, inclusive end expr node, +/-1 adjust, anchor node)] for in-place prefix-sum passes in g:
+    `for (i...; i < B / i <= B; ...) A[i] += A[i-1]` (or A[i] = A[i-1] + A[i]) and std::partial_sum(A, A+E, A)."""
+    out = []
+    for n in g.live_nodes():
+        if n["k"] == "ForStmt" and n.get("cond") is not None and n.get("body") is not None:
+            c = strip(n["cond"])
+            if c["k"] != "BinaryOperator" or c["op"] not in ("<", "<="):
+                continue
+            iv = access_path(g, c["lhs"])
+            if iv is None:
+                continue
+            for lv, w in written_lvalues(g):
+                if not any(x is w for x in walk(n["body"])):
+                    continue
+                s = strip(lv)
+                if s["k"] != "ArraySubscriptExpr" or access_path(g, s["idx"]) != iv:
+                    continue
+                A = resolved_path(g, s["base"])
+                if A is None or len(A) != 2 or w.get("rhs") is None:
+                    continue            # a plain table only (rows of a two-dimensional table are another recurrence)
+                # the right-hand side reads A[i-1]
+                prev = False
+                for x in walk(w["rhs"]):
+                    if x["k"] == "ArraySubscriptExpr" and resolved_path(g, x["base"]) == A:
+                        ix = strip(x["idx"])
+                        if ix["k"] == "BinaryOperator" and ix["op"] == "-" and access_path(g, ix["lhs"]) == iv and const_value(ix["rhs"]) == 1:
+                            prev = True
+                cur = w.get("op") == "+=" or any(x["k"] == "ArraySubscriptExpr" and resolved_path(g, x["base"]) == A and access_path(g, x["idx"]) == iv
+                                                 for x in walk(w["rhs"]))
+                if prev and cur:
+                    out.append((A, c["rhs"], 0 if c["op"] == "<=" else -1, n, c))
+        if n["k"] == "CallExpr" and callee_name(n) == "partial_sum" and len(n.get("args", [])) >= 3:
+            a0, a1, a2 = (strip(x) for x in n["args"][:3])
+            A = resolved_path(g, a0)
+            if A is None or resolved_path(g, a2) != A:
+                continue
+            if a1["k"] == "BinaryOperator" and a1["op"] == "+" and resolved_path(g, a1["lhs"]) == A:
+                out.append((A, a1["rhs"], -1, n, n))
+    return out
+
+
+@rule("R-CUMSUM", 4, "an in-place cumulative-count pass (a[i] += a[i-1], std::partial_sum) reaches the last entry that is used afterwards: "
+                     "the whole allocation when the table is a saved member (its image and the queries index all of it), and the range of "
+                     "every later loop of the same function that walks the table")
+def r_cumsum(db, rep):
+    import itertools
+    from rules_iter import pinned_sym
+    from rules_serial import saved_array_fields
+
+    def witness(lo_e, hi_e):
+        """assignment under which lo_e < hi_e (both symbolic), or None"""
+        if symx.has_unknown(lo_e) or symx.has_unknown(hi_e):
+            return None
+        syms = sorted(symx.atoms(lo_e) | symx.atoms(hi_e), key=repr)
+        grid = symx.GRID if len(syms) <= 2 else [0, 1, 2, 7, 31, 32, 33, 64, 100]
+        for vals in itertools.islice(itertools.product(grid, repeat=len(syms)), 6000):
+            val = dict(zip(syms, vals))
+            a, b = symx.evaluate(lo_e, val), symx.evaluate(hi_e, val)
+            if a is None or b is None:
+                continue
+            if a < b:
+                return {symx.canon(k): v for k, v in val.items()}
+        return None
+
+    for g in sorted(db.funcs.values(), key=lambda x: (x.file, x.line)):
+        if not g.body or g.cfg is None:
+            continue
+        passes = _cumulative_passes(g)
+        if not passes:
+            continue
+        cfg = g.cfg
+        rep.visit(g)
+        for A, endx, adj, anchor, posn in passes:
+            apos = cfg.position(posn)
+            if apos is None:
+                continue
+            end = pinned_sym(db, g, endx, None, None)
+            if adj:
+                end = symx.mk_op("-", end, symx.C(1))
+            rep.inst(g.nloc(anchor), "%s: cumulative pass over %s up to index %s" % (g.qn, fmt_path(g, A), symx.canon(end)))
+
+            def stable(e, frm, to):
+                """no store to a variable of e between the two positions"""
+                for lv, w in written_lvalues(g):
+                    p = access_path(g, lv)
+                    if p is None or not any(p == a for a in symx.atoms(e)):
+                        continue
+                    pw = cfg.position(w)
+                    if pw and frm and to and cfg.path_exists(frm, [pw]) and cfg.path_exists(pw, [to]):
+                        return False
+                return True
+
+            # (1) a saved member table: its allocation is what the image holds and what the loaded object is indexed over
+            if A[0] == "this" and len(A) == 2 and g.rec and A[1] in saved_array_fields(db).get(g.rec, set()):
+                sb = SeqBuilder(db, g, "c", nosubst=True)
+                sb.run()
+                for p, newn, _e in sb.allocs:
+                    if p != A or newn.get("size") is None:
+                        continue
+                    if cfg.position(newn) is None or not cfg.dominates(cfg.position(newn), apos):
+                        continue
+                    ext = pinned_sym(db, g, newn["size"], None, None)
+                    rep.ob()
+                    if not stable(ext, cfg.position(newn), apos) or not stable(end, cfg.position(newn), apos):
+                        rep.notes.append("%s: %s: the extent's variables change between allocation and pass (undecided)" % (g.qn, fmt_path(g, A)))
+                        continue
+                    wit = witness(symx.mk_op("+", end, symx.C(1)), ext)
+                    if wit is not None:
+                        rep.viol("%s#%s-cumsum-short" % (g.qn, A[1]), g.nloc(anchor),
+                                 "%s: the cumulative pass over %s stops at index %s, but the table has %s entries, all saved and indexed by "
+                                 "the queries (e.g. %s): the last entries keep plain counts instead of cumulative ones" % (
+                                     g.qn, fmt_path(g, A), symx.canon(end), symx.canon(ext), wit), g.qn)
+            # (2) later loops of the same function that walk the table with their loop variable
+            for n in g.live_nodes():
+                if n["k"] != "ForStmt" or n is anchor or n.get("cond") is None or n.get("body") is None:
+                    continue
+                c = strip(n["cond"])
+                if c["k"] != "BinaryOperator" or c["op"] not in ("<", "<="):
+                    continue
+                iv = access_path(g, c["lhs"])
+                if iv is None or not cfg.position(c) or not cfg.dominates(apos, cfg.position(c)):
+                    continue
+                reads = [x for x in walk(n["body"]) if x["k"] == "ArraySubscriptExpr" and resolved_path(g, x["base"]) == A
+                         and access_path(g, x["idx"]) == iv]
+                if not reads:
+                    continue
+                last = pinned_sym(db, g, c["rhs"], None, None)
+                if c["op"] == "<":
+                    last = symx.mk_op("-", last, symx.C(1))
+                rep.ob()
+                if not stable(last, apos, cfg.position(c)) or not stable(end, apos, cfg.position(c)):
+                    continue
+                wit = witness(end, last)
+                if wit is not None:
+                    rep.viol("%s#%s-cumsum-short-of-use" % (g.qn, fmt_path(g, A).replace("this->", "")), g.nloc(n),
+                             "%s: the loop at %s reads %s up to index %s, but the cumulative pass before it stopped at %s (e.g. %s): the "
+                             "entries in between are plain counts" % (g.qn, g.nloc(n), fmt_path(g, A), symx.canon(last), symx.canon(end), wit), g.qn)
